@@ -177,7 +177,7 @@ def parse_type(t):
 
 def sort_of(t):
     base, _, _ = parse_type(t)
-    return {"int": I, "bool": B, "real": R, "enum": I, "ref": I, "list": I, "tok": I, "?": I, "dict": I}[base]
+    return {"int": I, "bool": B, "real": R, "enum": I, "ref": I, "list": I, "tok": I, "?": I, "dict": I, "absdict": I}[base]
 
 
 def wrap(term, t, none=None):
@@ -230,7 +230,7 @@ def fresh_like(v, name="h"):
         return ListV(fresh(name), v.elem, none=n)
     if isinstance(v, TupleV):
         return TupleV([fresh_like(x, name) for x in v.items])
-    if isinstance(v, (NoneV, Opaque, Closure, ConstList, ConstDict, StrV, CondDes)) or type(v).__name__ in ("TokV", "DictObj"):
+    if isinstance(v, (NoneV, Opaque, Closure, ConstList, ConstDict, StrV, CondDes)) or type(v).__name__ in ("TokV", "DictObj", "AbsDictV"):
         return v
     raise VCError(f"cannot havoc {v!r}")
 
@@ -335,6 +335,18 @@ def safe_forall(vs, body, patterns=None):
             if good:
                 return z3.ForAll(vs, body, patterns=good)
     return z3.ForAll(vs, body)
+
+
+class AbsDictV(Val):
+    """abstract dict (DESIGN 11.9): its content is not tracked.  Every read yields an arbitrary value of the declared value type that
+    satisfies the dict's refinement predicate; every store is checked against type and predicate.  Sound for clauses that hold for
+    every dict content (an over-approximation of the real dict)."""
+
+    def __init__(self, vtype, root):
+        self.vtype, self.root = vtype, root
+
+    def __repr__(self):
+        return f"AbsDict[{self.vtype}]<{self.root}>"
 
 
 class ZipV(Val):
